@@ -225,6 +225,31 @@ def handle_downlink_macs(c, res):
                             'configuration.%s is read once before the command loop and that value is still used after a request has stored a new one: a later LinkADRReq that keeps the %s (0xF) writes the old value back, '
                             'undoing a request answered with full acceptance' % (field, field.replace('_', ' ')), short_site(bf, b_.idx), 'FRESH-READ(value in force when the request is handled)',
                             instance='handle_downlink_macs: configuration.%s read where it is used (repeatable after the store)' % field)
+    # FRESH-TRIAL-MASK: the trial mask a LinkADRReq block edits starts from the mask in force. Once a block has been answered (accepted or
+    # rejected), no later channel_mask_update may be reached without the trial mask having been read again from the region: otherwise the
+    # edits of a rejected block are carried into a later block of the same downlink and applied with it ("any rejection has changed nothing").
+    gets = [(bb, t) for bb, t in bf.calls() if callee_name(t).endswith('Configuration::channel_mask_get')]
+    upd = [bb for bb, t in bf.calls() if callee_name(t).endswith('Configuration::channel_mask_update')]
+    ends = [bb for bb, t in bf.calls() if callee_name(t).endswith('LinkADRAnsCreator::new')]
+    if not gets or not upd or not ends:
+        raise CheckError('anchor: channel_mask_get / channel_mask_update / LinkADRAnsCreator::new in handle_downlink_macs')
+    get_bbs = {bb for bb, t in gets}
+    leak = []
+    for e in ends:
+        seen, todo = set(), [e]
+        while todo:
+            n_ = todo.pop()
+            for m_ in bf.cfg.succ[n_]:
+                if m_ in seen or m_ in get_bbs or body.blocks[m_].cleanup:
+                    continue
+                seen.add(m_)
+                todo.append(m_)
+        if any(u in seen for u in upd):
+            leak.append(e)
+    res.require(not leak, 'C08:handle_downlink_macs:LinkADRReq:trial-mask-not-fresh',
+                'after a LinkADRReq block has been answered, the next block\'s channel_mask_update can be reached without re-reading the mask in force (channel_mask_get): the mask edits of a rejected block '
+                'are applied together with a later accepted block of the same downlink', short_site(bf, leak[0]) if leak else bf.body.path, 'MUST-PASS(block answered -> channel_mask_get -> next channel_mask_update)',
+                instance='LinkADRReq: every block starts from the mask in force (trial mask re-read after each block)')
     # channel_mask_set receives the trial copy that was validated
     for bb, t in bf.calls_to('Configuration::channel_mask_set'):
         a = term_of_operand(bf, t.args[1])
